@@ -201,6 +201,8 @@ def holder_names(d, tier):
     if tier == "thorough":
         names.append("tensor:C")
     names += ["tensor:int", "sptensor:id", "sptensor:rev", "sptensor:int"]
+    # narrow integer storage: the Gram matrix must not be formed in the storage dtype (it would wrap)
+    names += ["tensor:int8", "sptensor:int8"]
     if tier == "thorough":
         names += ["sptensor:rot", "sptensor:swap"]
     names += ["ktensor:cells", "ttensor:id_dense", "ttensor:id_sparse", "ttensor:id_spfac"]
@@ -225,16 +227,17 @@ def build_holder(name, d, A):
         csubs, cv = H.sp_parts(cs, cvals)
         return ttb.ttensor(H.make_sptensor(cs, csubs, cv), [sparse.coo_matrix(f) for f in fs])
     vals = [float(v) for v in rm.vals_f(A)]
-    if how == "int":
-        # the same (integer-valued) array stored with an integer dtype
-        Ai = np.asfortranarray(A.astype(np.int64))
+    if how in ("int", "int8"):
+        # the same (integer-valued) array stored with an integer dtype (int8 only where every value fits)
+        idt = np.int8 if (how == "int8" and (A.size == 0 or float(np.max(np.abs(A))) <= 127)) else np.int64
+        Ai = np.asfortranarray(A.astype(idt))
         if kind == "tensor":
             return ttb.tensor(Ai)
         subs, vs = H.sp_parts(shape, vals)
         if not vs:
             return ttb.sptensor(shape=tuple(shape))
         return ttb.sptensor(np.array(subs, dtype=int).reshape(len(vs), len(shape)),
-                            np.array(vs).astype(np.int64).reshape(-1, 1), tuple(shape))
+                            np.array(vs).astype(idt).reshape(-1, 1), tuple(shape))
     if kind == "tensor":
         return H.build({"kind": "tensor", "shape": list(shape), "vals": vals, "c_order": how == "C"})
     if kind == "sptensor":
